@@ -150,8 +150,20 @@ def producer(r, facts, pat, fetch_name, tag, more_edge):
         sd = b.single_def(a[1][0]) if a[0] in ("c", "m") else None
         v = sd[3][1][2] if sd and sd[0] == "stmt" and sd[3][0] == "agg" and sd[3][1][0] == "adt" else None
         (ok_sends if v == "Ok" else err_sends).append(s)
-    if len(ok_sends) != 1 or not err_sends:
-        raise AnchorLost("%s: expected one send(Ok(page)) and >=1 send(Err(..)); found %d/%d" % (tag, len(ok_sends), len(err_sends)))
+    # an error must be handed over with the awaited `send` (back-pressure): `try_send` on the capacity-1 channel drops it
+    # whenever the consumer has not yet taken the previous page, and the stream then ends as if it were complete
+    lossy = []
+    for s2 in b.calls_to("tokio::sync::mpsc::bounded::Sender::<T>::try_send", "tokio::sync::mpsc::bounded::Sender::<T>::send_timeout"):
+        a = s2.args[1]
+        sd = b.single_def(a[1][0]) if a[0] in ("c", "m") else None
+        v = sd[3][1][2] if sd and sd[0] == "stmt" and sd[3][0] == "agg" and sd[3][1][0] == "adt" else None
+        if v != "Ok":
+            lossy.append(s2)
+    r.instance(tag + ":errors-delivered-reliably", bool(err_sends) and not lossy,
+               "a failed page fetch must reach the consumer through the awaited Sender::send (found %d awaited error sends, %d lossy ones: try_send drops the error when the previous page is still in the channel)" % (len(err_sends), len(lossy)),
+               (lossy[0].span if lossy else b.span))
+    if len(ok_sends) != 1:
+        raise AnchorLost("%s: expected one send(Ok(page)); found %d" % (tag, len(ok_sends)))
     S = ok_sends[0]
     r.instance(tag + ":next-fetch-needs-sent-page", F.bb not in b.reachable_after(F.bb, removed_nodes=[S.bb]), "another page may be fetched only after this one was handed to the consumer", F.span)
     # page sent derives from this iteration's fetch
@@ -213,7 +225,7 @@ def more_edge_cc(r, b, df, F, S, tag):
 
 
 def r3(ctx, facts):
-    r = ctx.rule("R3", "producer loops: fetch next only after the page was delivered and more pages were announced", floor=13)
+    r = ctx.rule("R3", "producer loops: fetch next only after the page was delivered and more pages were announced", floor=15)
     producer(r, facts, r"^scylla::client::pager::PagingExecutor::query_remaining_pages::\{closure#0\}$", "PagingExecutor::fetch_one_page", "session-pager", more_edge_session)
     producer(r, facts, r"^scylla::client::pager::SingleConnectionPagingExecutor::fetch_remaining_pages::\{closure#0\}$", "SingleConnectionPagingExecutor::fetch_one_page", "cc-pager", more_edge_cc)
 
